@@ -23,3 +23,23 @@ Theorem C12_drop_unmaps_own : forall allp k s g s', drop_guard allp k s g = (s',
 Proof. intros allp k s g s' H. apply drop_guard_spec in H. destruct H as (_ & O & _ & t & T & F). split; auto.
   exists t. split; auto. eapply Forall_impl; [|exact F]. intros []; tauto. Qed.
 Print Assumptions C12_drop_unmaps_own.
+
+(* the same at the level of the observable trace: replaying the mmap/munmap events of ANY run (any script, any kernel, any
+   exit kind: aborted and faulted runs included) from the beginning never unmaps a mapping that is not live at that moment
+   (live_from answers None for a double free or a foreign unmap), and the live set it ends with is the bookkeeping o_owned,
+   about which C12_maps_balanced speaks *)
+From Inj Require Import TraceLive Amd64Install.
+Theorem C12_trace_never_unmaps_what_is_not_live : forall c reset k named ls,
+  enc_wf (c_enc c) -> alloc_wf (c_alloc c) -> alloc_live (c_alloc c) -> alloc_nonnull (c_alloc c) k -> Forall (script_wf c named) ls ->
+  forall s0 ctr, live_from [] (o_trace s0) = Some (o_owned s0) ->
+  let '(s', _, _) := lifetimes c reset true k s0 ctr ls in live_from [] (o_trace s') = Some (o_owned s').
+Proof. exact lifetimes_trace_live. Qed.
+Print Assumptions C12_trace_never_unmaps_what_is_not_live.
+Theorem C12_allocators_replay : (forall strict, alloc_live (alloc_jit strict)) /\ alloc_live alloc_given.
+Proof. exact (conj alloc_jit_live alloc_given_live). Qed.
+Print Assumptions C12_allocators_replay.
+Example C12_replay_rejects_double_free_and_foreign_unmap :
+  live_from [] [EMmap 0 12 (Some 4096); EMunmap 4096 12; EMunmap 4096 12] = None /\
+  live_from [] [EMmap 0 12 (Some 4096); EMunmap 8192 12] = None /\ live_from [] [] = Some (o_owned (os0 (fun _ => 0))).
+Proof. repeat split. Qed.
+Print Assumptions C12_replay_rejects_double_free_and_foreign_unmap.
